@@ -17,7 +17,7 @@ PRES = ["flip", "roll", "sort", "argsort", "softmax", "log_softmax"]
 # operations that only move data (results must be bit-identical across processes)
 DATA_MOVING = {"id", "get_at", "set_at", "flip", "roll", "sort", "argsort", "argmax", "argmin", "max", "min", "maximum", "minimum", "where", "less", "equal",
                "any", "all", "count_nonzero", "logical_and", "logical_or", "less_equal", "greater", "greater_equal", "not_equal", "solve_axes", "solve_shapes", "matches"}
-FAMILIES = ["id", "id", "reduce", "reduce", "elem", "elem", "dot", "dot3", "get_at", "get_at_multi", "update_at", "argfind", "pres", "idcat", "ell", "ellred", "solve"]
+FAMILIES = ["id", "id", "reduce", "reduce", "elem", "elem", "dot", "dot3", "get_at", "get_at_multi", "update_at", "argfind", "pres", "idcat", "ell", "ellred", "solve", "allscalar"]
 
 
 def mkdata(rng, shape, kind="int"):
@@ -296,6 +296,12 @@ def gen_call(rng, fam=None, names=NAMES):
             kw = {"shift": {"tuple": [rng.randint(-2, 2) for _ in br]}}
         k2 = "float" if "softmax" in op else kind
         return _d(op, gstr([[a] for a in ax], br), [mkdata(rng, tuple(s for _, s in ax), k2)], kw, axes=ax)
+    if fam == "allscalar":
+        # every tensor argument is a Python / numpy scalar (such calls select numpy by the scalar rule)
+        op = rng.choice(["add", "multiply", "subtract", "maximum", "less"])
+        ty = lambda: rng.choice(["int", "float", "np.float32", "np.int64", "np.float64"])
+        ts = [{"scalar": rng.randint(1, 5), "type": ty()} for _ in range(2)]
+        return _d(op, rng.choice([", -> ", ", ", ",->"]), ts)
     if fam == "solve":
         op = rng.choice(["solve_axes", "solve_shapes", "matches"])
         ax = axes(rng, rng.randint(1, 4), names=names)
